@@ -18,6 +18,9 @@ uint64_t calls[4]; uint64_t seen[4]; uint64_t got[4]; uint64_t ret[4]; uint64_t 
     bool r = c->wait_for(std::chrono::nanoseconds(to)); uint64_t t1 = vf_now_ns(); ret[i] = r ? 1 : 2; \
     if (r) { vf_check(c->ready(std::memory_order_acquire), 3); P2& x = c->get(); vf_check(x.b == ~x.a && x.a == 42, 2); } \
     else { vf_check(to <= 0 || t1 - t0 >= (uint64_t)to, 4); } } while (0)
+// wait_for with a zero timeout: times out at once unless the value is there (the time-out exit path racing set_value)
+#define WAITFOR0(i) do { bool r = c->wait_for(std::chrono::nanoseconds(0)); ret[i] = r ? 1 : 2; \
+    if (r) { vf_check(c->ready(std::memory_order_acquire), 3); P2& x = c->get(); vf_check(x.b == ~x.a && x.a == 42, 2); } } while (0)
 #ifndef VF_TO_ASSUME
 #define VF_TO_ASSUME (void)0
 #endif
